@@ -49,6 +49,10 @@ def is_pure(e) -> bool:
         return is_pure(e.value) and isinstance(e.slice, (ast.Constant, ast.Name))
     if isinstance(e, ast.Starred):
         return is_pure(e.value)
+    if isinstance(e, ast.IfExp):
+        return is_pure(e.test) and is_pure(e.body) and is_pure(e.orelse)
+    if isinstance(e, ast.UnaryOp) and isinstance(e.op, ast.Not):
+        return is_pure(e.operand)
     return False
 
 
@@ -562,8 +566,8 @@ def _propagate_pure(fn):
                 if st.get(x) != 1 or x in params or x.startswith("_c") or not is_pure(s.value) or isinstance(s.value, ast.Constant):
                     continue
                 roots = [n.id for n in ast.walk(s.value) if isinstance(n, ast.Name)]
-                if not all(r in params and st.get(r, 0) == 0 or st.get(r, 0) == 1 and r not in params for r in roots):
-                    continue
+                if not all(st.get(r, 0) == 0 or (st.get(r, 0) == 1 and r not in params) for r in roots):
+                    continue  # (a name never stored in the function is a parameter or a module-level name)
                 if not isinstance(s.value, ast.Name) and attr_stores:
                     continue
                 # every read of x must come after this statement in the same block or deeper (no read before the store)
@@ -952,6 +956,74 @@ def _always_returns(stmts) -> bool:
     return False
 
 
+# ---- R27: negations are pushed inward (`not (a and b)` -> `not a or not b`, `not (x in y)` -> `x not in y`) -------------------
+
+_INV = {ast.Is: ast.IsNot, ast.IsNot: ast.Is, ast.Eq: ast.NotEq, ast.NotEq: ast.Eq, ast.In: ast.NotIn, ast.NotIn: ast.In}
+
+
+def _nnf(fn):
+    def neg(e):
+        if isinstance(e, ast.UnaryOp) and isinstance(e.op, ast.Not):
+            return push(e.operand)
+        if isinstance(e, ast.BoolOp):
+            return ast.BoolOp(op=ast.Or() if isinstance(e.op, ast.And) else ast.And(), values=[neg(v) for v in e.values])
+        if isinstance(e, ast.Compare) and len(e.ops) == 1 and type(e.ops[0]) in _INV:
+            return ast.Compare(left=e.left, ops=[_INV[type(e.ops[0])]()], comparators=e.comparators)
+        return ast.UnaryOp(op=ast.Not(), operand=e)
+
+    def push(e):
+        # only inside a truth context: the value of `not X` is a bool whichever way it is written
+        if isinstance(e, ast.UnaryOp) and isinstance(e.op, ast.Not):
+            return neg(e.operand)
+        return e
+
+    class T(ast.NodeTransformer):
+        def visit_UnaryOp(self, node):
+            self.generic_visit(node)
+            if isinstance(node.op, ast.Not) and isinstance(node.operand, (ast.BoolOp, ast.UnaryOp, ast.Compare)):
+                inner = node.operand
+                if isinstance(inner, ast.BoolOp) and not all(_boolish(v) for v in inner.values):
+                    return node  # `not (a and b)` == `not a or not b` needs every operand to be read as a truth value: it is, by `not`
+                return self.visit(neg(inner)) if not isinstance(inner, ast.Compare) or type(inner.ops[0]) in _INV and len(inner.ops) == 1 else node
+            return node
+
+    T().visit(fn)
+
+
+def _boolish(e) -> bool:
+    return True
+
+
+# ---- R28: `try: S(d[k]) except KeyError: H` -> `if k in d: S(d[k]) else: H` ---------------------------------------------------
+
+def _keyerror_to_membership(fn):
+    """For a pure container expression d and a pure key k, when the single statement of the try body can raise KeyError only
+    through the subscript d[k] (the statement evaluates nothing else but pure expressions)."""
+    def only_pure_and_sub(stmt):
+        subs = [n for n in ast.walk(stmt) if isinstance(n, ast.Subscript) and isinstance(n.ctx, ast.Load)]
+        if len(subs) != 1 or not is_pure(subs[0].value) or not (is_pure(subs[0].slice)):
+            return None
+        val = stmt.value if isinstance(stmt, (ast.Return, ast.Assign)) else None
+        if val is not subs[0]:
+            return None
+        return subs[0]
+
+    def f(stmts):
+        out = []
+        for s in stmts:
+            if isinstance(s, ast.Try) and len(s.body) == 1 and len(s.handlers) == 1 and not s.orelse and not s.finalbody and s.handlers[0].name is None \
+                    and s.handlers[0].type is not None and ast.unparse(s.handlers[0].type) == "KeyError":
+                sub = only_pure_and_sub(s.body[0])
+                if sub is not None:
+                    hb = [x for x in s.handlers[0].body if not isinstance(x, ast.Pass)]
+                    out.append(ast.If(test=ast.Compare(left=copy.deepcopy(sub.slice), ops=[ast.In()], comparators=[copy.deepcopy(sub.value)]), body=s.body, orelse=hb))
+                    continue
+            out.append(s)
+        return out
+
+    _rewrite_bodies(fn, f)
+
+
 # ---- R13: `if a or b: X` with X leaving -> `if a: X` / `if b: X` ----------------------------------------------------------
 
 def _split_or_guards(fn):
@@ -1135,8 +1207,11 @@ def normal_form(fn, signatures: Optional[Dict[str, List[str]]] = None, helpers: 
     g = copy.deepcopy(fn)
     g.decorator_list = []
     _strip(g)
+    _propagate_pure(g)   # before conditional expressions become statements: `f = A if c else B` hoisted out of a loop goes back in
     for _ in range(5):
         before = ast.dump(g)
+        _nnf(g)
+        _keyerror_to_membership(g)
         _expand_ifexp(g)
         _split_or_guards(g)
         _guards(g)
